@@ -40,7 +40,7 @@ def extra_checks(world):
             out.append({"name": f"C05/type-numbers-of-the-protocol[{hcx.VTAG[v]}]/{enum}", "tag": "property", "status": "unsat" if have == want else "sat",
                         "secs": 0.0, "backend": "structural", "unit": f"{v}.{enum}", "path": [f"documented 0..{n - 1}; {diff}"],
                         "model": {"version": VOF[v], "enum": enum, **diff}})
-    return out
+    return out + hc.dispatch_obligations(world, PROP)  # the number 2 is the version report
 
 
 def type_sweep(versions=hn.VERS):
@@ -67,7 +67,7 @@ def type_sweep(versions=hn.VERS):
 
 
 def replay(world, ob):
-    if ob.get("backend") == "structural":
+    if ob.get("backend") == "structural" and not (ob.get("model") or {}).get("lines"):
         m = ob.get("model") or {}
         f, n = type_sweep([m["version"]] if m.get("version") else hn.VERS)
         return dict(f, confirmed=True, native_runs=n) if f else {"confirmed": False, "native_runs": n}
